@@ -414,7 +414,7 @@ func replayCandidates(opt *Options, w *World, results []*ObResult) ([]*Confirmed
 				}
 			}
 			if ok {
-				dirp := filepath.Join(verifRoot, "replays", opt.Property)
+				dirp := filepath.Join(envDef("VERIF_REPLAY_DIR", filepath.Join(verifRoot, "replays")), opt.Property)
 				os.MkdirAll(dirp, 0755)
 				p := filepath.Join(dirp, sanitize(c.r.Ob.ID()+"-"+c.v.Label)+".json")
 				sr := StoredReplay{Property: opt.Property, Obligation: c.r.Ob.ID(), Dir: dir, Harness: c.r.Ob.File.Rel, Kind: c.v.Kind, Label: c.v.Label, Site: c.v.Site, Msg: c.v.Msg, Case: c.c, Native: outcome}
